@@ -20,7 +20,6 @@ def sat (v : Int) : Int := max (-2147483648) (min 2147483647 v)
 def satAdd (a b : Int) : Int := sat (a + b)
 def satSub (a b : Int) : Int := sat (a - b)
 def satMul (a b : Int) : Int := sat (a * b)
-def inI32 (v : Int) : Bool := decide (I32MIN ≤ v) && decide (v ≤ I32MAX)
 
 /-- terminal state + buffer size -/
 structure Scr where
@@ -63,10 +62,15 @@ def Scr.lastEditable (s : Scr) : Int :=
 def Scr.needsScrolling (s : Scr) : Bool := s.mtb.isSome
 def Scr.upperLeft (s : Scr) : Int × Int := (0, s.fv)   -- origin mode is never WithinMargins
 
-/-- the plain `+` sites of the getters and of the one-step cursor moves: all must stay inside `i32` -/
-def rangeOk (s : Scr) (c : Car) : Bool :=
-  inI32 (s.fv + s.bh) && inI32 (s.fv + s.th) && inI32 (c.y + 1) && inI32 (c.x + 1) && inI32 (c.y - 1) &&
-  (match s.mtb with | some (t, e) => inI32 (s.fv + t) && inI32 (s.fv + e) | none => true)
+/-- the value fits an `i32` -/
+def InI32 (v : Int) : Prop := -2147483648 ≤ v ∧ v ≤ 2147483647
+instance (v : Int) : Decidable (InI32 v) := by unfold InI32; infer_instance
+
+/-- the plain `+`/`-` sites of the getters and of the one-step cursor moves: all must stay inside `i32`
+    (margins lie inside the screen, so `fv + margin` is covered by `fv + th`) -/
+def RangeOk (s : Scr) (c : Car) : Prop :=
+  InI32 (s.fv + s.bh) ∧ InI32 (s.fv + s.th) ∧ InI32 (c.y + 1) ∧ InI32 (c.x + 1) ∧ InI32 (c.y - 1)
+instance (s : Scr) (c : Car) : Decidable (RangeOk s c) := by unfold RangeOk; infer_instance
 
 /-! ## tab stops (`src/terminal_state.rs`) -/
 def resetTabsAux (w : Int) : Nat → Int → List Int
@@ -158,7 +162,7 @@ def printChar (s : Scr) (c : Car) : Res (Scr × Car) :=
 def printN : Nat → Scr → Car → Res (Scr × Car)
   | 0, s, c => .ok (s, c)
   | n+1, s, c =>
-    if !rangeOk s c then .error (.overflow "print_char") else
+    if ¬ RangeOk s c then .error (.overflow "print_char") else
     match printChar s c with
     | .ok (s, c) => printN n s c
     | .error e => .error e
